@@ -223,14 +223,14 @@ def helper_cases(ctx):
             for i in range(0, n // k + 2):
                 dxs = max(1, min(k, n - 1 - i * k))
                 cases.append(integrate_case(I, s, i, k, F(3, 4), 'exact' if dxs in (1, 2, 4) else 'float'))
-    for _ in range(ctx.n(300, 3000)):
+    for _ in range(ctx.n(200, 3000)):
         k = rnd.choice([1, 1, 2, 3, 4, 6, 12, 52])
         life = rnd.choice([1, 2, 3, 5, 10, 30] + ([] if ctx.quick else [60, 100]))
         n = max(0, life * k + rnd.choice([0, 0, 0, 1, -1, -k]))
         i = rnd.choice([0, life - 1, life - 1, rnd.randint(0, life - 1), rnd.randint(0, life - 1), life])
         cases.append(integrate_case(I, series(n, 1, 90), i, k, round(fl(0.5, 0.99), 3), 'float'))
     # annual_electricity_pumping_power: five distinct series, every end-use option
-    for _ in range(ctx.n(120, 1000)):
+    for _ in range(ctx.n(80, 1000)):
         code = rnd.choice(ENDUSE_CODES)
         life, k = rnd.choice([1, 2, 3, 5, 10]), rnd.choice([1, 2, 4, 12])
         n = life * k + rnd.choice([0, 0, 1])
@@ -240,7 +240,7 @@ def helper_cases(ctx):
     for _ in range(ctx.n(80, 500)):
         cases.append(remaining_case(I, round(fl(50, 900), 3), series(rnd.choice([0, 1, 2, 3, 7, 30, 100]), 1e7, 2e9)))
     # electricity_heat_production: every end-use option, error branches
-    for _ in range(ctx.n(250, 2500)):
+    for _ in range(ctx.n(160, 2500)):
         code = rnd.choice(ENDUSE_CODES)
         n = rnd.choice([1, 2, 3, 5, 8])
         la = n
@@ -258,7 +258,7 @@ def helper_cases(ctx):
                               round(fl(90, 150), 1), round(fl(0.5, 0.95), 2), round(fl(0.1, 0.9), 2), avail, series(n, 0.05, 0.2),
                               series(n, 120, 300), series(nr, 60, 95)))
     # reinjection_temperature: random coefficients, both brackets, the Tinj update in both directions, empty series
-    for idx in range(ctx.n(120, 1000)):
+    for idx in range(ctx.n(80, 1000)):
         amb = rnd.choice([-5, 0, 5, 10, 14.9, 15, 15.1, 20, 25, 30, round(fl(0, 30), 1)])
         n = rnd.choice([1, 2, 3, 6]) if idx else 0
         coefs = [float('%.4g' % fl(-0.2, 0.4)), float('%.4g' % fl(0.001, 0.01)), float('%.3g' % fl(-2e-5, 2e-5))] * 2 + \
@@ -541,7 +541,7 @@ def check_runs(ctx, part, labelled_texts, report=True):
             dist['rejected-or-crashed-before-the-hook'] = dist.get('rejected-or-crashed-before-the-hook', 0) + 1
             continue
         try:
-            R = run_terms(r['snap'], years=(0, 14, 29) if ctx.quick else None)
+            R = run_terms(r['snap'], years=(0, 29) if ctx.quick else None)
         except ValueError as e:
             dist['non-finite series ' + str(e)] = dist.get('non-finite series ' + str(e), 0) + 1
             continue
@@ -623,7 +623,7 @@ def gen_runs(ctx):
     rnd = ctx.rng
     runs = [('corpus:' + p.name, p.read_text()) for p in sorted(CORPUS.glob('*.txt'))]
     runs += [('example:' + name, text) for name, text in configs.example_texts(ctx, slow=not ctx.quick)]
-    if ctx.quick:       # the SUTRA storage plant (5 s): three of its years in the quick tier, all of them in the thorough tier
+    if ctx.quick:       # the SUTRA storage plant (5 s): two of its years in the quick tier, all of them in the thorough tier
         runs.append(('example:SUTRAExample1.txt', (fw.REPO / 'tests' / 'examples' / 'SUTRAExample1.txt').read_text()))
     lives = [1, 2, 3, 7] if ctx.quick else [1, 2, 3, 7, 30, 100]
     cells = [(eu, pl) for eu in configs.ENDUSES for pl in (configs.ELEC_PLANTS if eu != 2 else configs.HEAT_PLANTS)]
@@ -640,7 +640,7 @@ def gen_runs(ctx):
             opts = dict(addons=False, overpressure=False) if dh else _opts(rnd)
             runs.append((f'cell:eu{eu}:plant{pl}:{rep}:{len(runs)}',
                          _synthetic(rnd, life, tspy, enduse=eu, plant=pl, resmodel=resm, **opts)))
-    for i in range(ctx.n(12, 60)):     # long series, add-ons
+    for i in range(ctx.n(8, 60)):     # long series, add-ons
         eu = rnd.choice(configs.ENDUSES)
         pl = rnd.choice(configs.ELEC_PLANTS if eu != 2 else [5, 6, 9])
         runs.append((f'long:{i}', _synthetic(rnd, rnd.choice([10, 20, 30, 35] + ([] if ctx.quick else [60, 100])),
